@@ -220,6 +220,14 @@ def run_case(ctx, col, case):
 
 def one_call(rng, g, dp, lab, emit, col):
     N = lambda **k: number(rng, dp, **k)
+    if rng.random() < 0.03:
+        # relabel an axis in mid-history through the public rename_axis(); the lexer follows
+        axis = rng.choice(["X", "Y", "Z"])
+        new = rng.choice([l for l in ("A", "B", "C", "U", "V", "W", "XX", "YA") if l not in lab.values()] or ["QQ"])
+        g.rename_axis(axis.lower(), new)
+        lab[axis] = new
+        col.count("rename_axis_calls")
+        return True
     kind = rng.choice(["move", "move", "rapid", "bypass", "set_axis", "auto_home", "probe", "feed", "power",
                        "tool_on", "power_on", "temp", "halt", "sleep", "fan", "tool_change", "modes",
                        "comment", "formatter", "formatter", "shape"])
